@@ -276,3 +276,29 @@ Theorem C01_source_log2_ratios :
       exp2 (fn_log2_ratios log2 a k hapx min_abs_val false (on_x_mask c) (on_y_mask c))
       == rescaled a k (shifted hapx c).
 Proof. exact fn_log2_ratios_eq. Qed.
+
+(* ---- source tie of get_as_dframe_and_set_reference_and_expect_copies: its column code (np.repeat defaults, masked
+   .loc stores), read per row and regenerated from the Python source on every run (Gen/FnCallRefExpect.v), IS
+   ref_expect on every class of row -- chr_x_filter selects class ChrX, chr_y_filter ChrY, pary_filter ParY
+   (a ParY row needs a PAR build) *)
+From CNV Require Gen.FnCallRefExpect Proofs.FnCallRefExpect.
+Theorem C01_source_ref_expect : forall k hapx female has_build c,
+  (c = ParY -> has_build = true) ->
+  Gen.FnCallRefExpect.fn_ref_expect k k hapx female
+     (Proofs.FnCallRefExpect.is_x c) (Proofs.FnCallRefExpect.is_y c) has_build (Proofs.FnCallRefExpect.is_pary c)
+  = ref_expect k hapx female c.
+Proof. exact Proofs.FnCallRefExpect.source_ref_expect. Qed.
+
+(* ---- source tie of do_call's dispatch between the calling paths (Gen/FnCallDispatch.v, regenerated from the
+   Python source on every run): the purity-adjusted path is taken exactly when use_purity answers (purity given,
+   non-zero, below 1), the pure clonal path otherwise for method "clonal", and "threshold" overrides `absolutes` *)
+From CNV Require Gen.FnCallDispatch Proofs.FnCallDispatch.
+Theorem C01_source_dispatch : forall purity m variants l b cc lr br pure thr toks,
+  Gen.FnCallDispatch.fn_dispatch purity m variants l b cc lr br pure thr toks
+  = let '(a, l', b') :=
+        match use_purity purity with
+        | Some _ => (cc, lr, if variants then br else b)
+        | None => ((if String.eqb m "clonal" then pure else inject_Z 0), l, b)
+        end in
+    ((if String.eqb m "threshold" then thr else a), l', b').
+Proof. exact Proofs.FnCallDispatch.source_dispatch. Qed.
